@@ -3,7 +3,7 @@
    quote; constants), every library tree T, every paging P (arbitrary partition of every folder's children
    into pages, server-chosen nextLinks), every start state, every sufficient fuel; no size bound. *)
 From Coq Require Import ZArith List Bool Lia.
-From S2T Require Import Lib.PyStr C18.Model C18.Proofs.
+From S2T Require Import Lib.PyStr C18.Model C18.Proofs C18.ProofsPaths.
 Local Open Scope nat_scope.
 
 (* _walk_drive_items over ANY folder of ANY library: whenever the world serves the folder's sub-table
@@ -54,6 +54,26 @@ Proof.
   intros m Hm. apply matches_spec. rewrite forallb_forall in Hcmp. exact (Hcmp m Hm).
 Qed.
 Print Assumptions C18_filtered_is_filter_of_walk.
+
+(* list_files_filtered restricted by FileFilter.folder_paths (any drive): for each entry, in order, the folder is
+   looked up by path (url = root:/quote(strip(p))); an unknown path (404) or a path that is not a folder
+   contributes nothing; otherwise the sub-tree of THAT folder is walked and filtered, parent paths starting at
+   the entry as given (unquoted); "" designates the whole drive (spec_target) *)
+Theorem C18_filtered_by_folder_paths :
+  forall (E : env) (tk site : str) (drive : option str) (P : paging) (T : list node) (w : world) (n0 : nat)
+         (s : st) (fuel : nat) (f : ffilter),
+    server_wf E site drive P T = true -> nonempty tk = true ->
+    healthy_from w n0 E tk (server_table E site drive P T) -> n0 <= nreq s -> cache_ok tk site s ->
+    need P None T <= fuel -> folder_paths f <> [] ->
+    forallb (comparable E f) (flat_map (spec_target E site drive T) (folder_paths f)) = true ->
+    exists s', run E w (list_files_filtered E fuel f drive) s
+               = (Ok (flat_map (fun p => filter (spec_matches E f) (spec_target E site drive T p)) (folder_paths f)), s')
+               /\ balanced s s'.
+Proof.
+  intros E tk site drive P T w n0 s fuel f Hwf Htk.
+  exact (filtered_paths_ok E site drive P tk T Hwf Htk f w n0 s fuel).
+Qed.
+Print Assumptions C18_filtered_by_folder_paths.
 
 (* FileFilter.matches = created in [after, before) and modified in [after, before) and name ends with one of
    the extensions after lower-casing both and one pattern matches the FULL path *)
